@@ -13,4 +13,15 @@ namespace Romea.Hidden.C01
 
 theorem hidden_state_as_recorded : Romea.Generated.C01.hiddenState = [] := by rfl
 
+/-- The names (not only the types) of what every translated function reads, carries through its loops and returns are those
+    the bridge theorems were written against: a function that now reads or writes ANOTHER member of the same type keeps its Lean
+    type, and a positional application in a bridge would keep checking. -/
+theorem signatures_as_recorded : Romea.Generated.C01.signatures = [
+    "EarthEllipsoid.EarthEllipsoid (A B) result: a', b', e', e2'",
+    "ECEFConverter.toECEF (ellipsoid__a ellipsoid__e2 geodeticCoordinates_altitude geodeticCoordinates_latitude geodeticCoordinates_longitude) result: ret_0, ret_1, ret_2",
+    "EPSILON (OfScientific.ofScientific 1 true 11)",
+    "makeGeodeticCoordinates (altitude latitude longitude) result: ret_altitude, ret_latitude, ret_longitude",
+    "ECEFConverter.toWGS84.loop1 (Z ellipsoid__a ellipsoid__e2 norm) carried: delta, latitude",
+    "ECEFConverter.toWGS84 (fuel ecefPosition_0 ecefPosition_1 ecefPosition_2 ellipsoid__a ellipsoid__e2) result: ret_altitude, ret_latitude, ret_longitude (none = fuel exhausted)"] := by rfl
+
 end Romea.Hidden.C01
